@@ -301,8 +301,9 @@ def main():
         if not shapes:
             continue
         k = getattr(fn, "native_random", nrand)
-        for i in range(k):
-            s = shapes[R.randrange(len(shapes))]
+        every = getattr(fn, "native_all", False)  # bounded enumerations: each shape once, not a random draw
+        for i in range(len(shapes) if every else k):
+            s = shapes[i] if every else shapes[R.randrange(len(shapes))]
             rnd_items.append(dict(contract=n, shape={kk: (list(v) if isinstance(v, tuple) else v) for kk, v in s.items()}, witness={}, seed=R.getrandbits(32)))
     # fallback for (contract, shape) jobs that fell out of the engine's reach: the same shape natively, random contents
     seen_fb = set()
@@ -349,6 +350,9 @@ def main():
         else:
             jr = jobidx.get((nf["contract"], json.dumps(nf["shape"], sort_keys=True, default=str)))
             broken_callee = any(any(x2["contract"] == prov for x2 in cand) for st in REGISTRY[nf["contract"]].stubs for prov in STUBS[st]["provided_by"])
+            # (a loop-cut contract discharges its post phase UNDER the invariant: a refuted invariant obligation of the same
+            # contract explains a native failure of the post clause)
+            broken_callee = broken_callee or any(x2["contract"] == nf["contract"] and x2["confirmed"] is not False for x2 in cand)
             clean = not broken_callee and jr is not None and not jr["refuted"] and not jr["undecided"] and not jr["exceptions"] and not jr.get("crash") and (nf["clause"] == "no-exception" or nf["clause"] in jr["clauses"])
             if clean:
                 unsound.append(nf)  # the symbolic run discharged exactly this clause on exactly this shape
